@@ -270,6 +270,10 @@ class C13(Prop):
             for op, l in zip(case["ops"], out):
                 if op.startswith("run ") and " class=ok " not in l:
                     first = Failure("monitor", "%s: expected exit status 0 (help/version), got %s" % (case["name"], l[:160]))
+        if first is None and case.get("expect_err"):
+            runs = [(op, l) for op, l in zip(case["ops"], out) if op.startswith("run ")]
+            if runs and " class=err " not in runs[-1][1]:
+                first = Failure("monitor", "%s: invalid arguments must be rejected with a non-zero status and a diagnostic, got %s" % (case["name"], runs[-1][1][:200]))
         if first is None and case.get("ref"):
             first = G.ref_monitor(ctx, case, out)
         return first
